@@ -34,9 +34,13 @@ pub(crate) trait CKKSPow2Default<BE: Backend> {
         Scratch<BE>: ScratchTakeCore<BE>,
     {
         let offset = dst.offset_unary(src);
-        self.glwe_lsh(dst, src, bits + offset, scratch);
+        let log_budget = checked_log_budget_sub("mul_pow2", src.log_budget(), offset)?;
+        let shift = bits
+            .checked_add(offset)
+            .ok_or_else(|| anyhow::anyhow!("mul_pow2: shift overflow"))?;
+        self.glwe_lsh(dst, src, shift, scratch);
         dst.meta = src.meta();
-        dst.meta.log_budget = checked_log_budget_sub("mul_pow2", dst.log_budget(), offset)?;
+        dst.meta.log_budget = log_budget;
         Ok(())
     }
 
@@ -66,9 +70,10 @@ pub(crate) trait CKKSPow2Default<BE: Backend> {
         Scratch<BE>: ScratchTakeCore<BE>,
     {
         let offset = dst.offset_unary(src);
+        let log_budget = checked_log_budget_sub("div_pow2", src.log_budget(), bits.saturating_add(offset))?;
         self.glwe_lsh(dst, src, offset, scratch);
         dst.meta = src.meta();
-        dst.meta.log_budget = checked_log_budget_sub("div_pow2", dst.log_budget(), bits + offset)?;
+        dst.meta.log_budget = log_budget;
         dst.meta.log_delta += bits;
         Ok(())
     }
